@@ -35,6 +35,9 @@ struct MiniEngine {
     std::function<std::vector<J>(const J&)> shrinks; // smaller candidates
     int cpu_limit = 20; // CPU seconds one run may take (a spinning run is a crash)
     std::function<J(const J&)> summary; // compact form of a case, for samples
+    // cases that must be the first thing their process runs (first-use state
+    // inside the code under test is part of what they explore)
+    std::function<bool(const J&)> pristine;
 };
 
 inline double mini_now() {
@@ -178,9 +181,16 @@ inline int mini_run(
             for (long k = i; k < to; ++k) {
                 if ((k - i) % 16 == 0 && mini_now() > deadline)
                     break;
+                J c = e.gen(seed_of(k), tier, k);
+                if (k > i && e.pristine && e.pristine(c)) {
+                    // hand the case to a fresh child of the supervisor
+                    flush_counters();
+                    fprintf(out, "K %ld\n", k);
+                    fflush(out);
+                    _exit(4);
+                }
                 fprintf(out, "S %ld\n", k);
                 fflush(out);
-                J c = e.gen(seed_of(k), tier, k);
                 cpu_alarm(e.cpu_limit);
                 MiniOutcome o = e.run(c);
                 cpu_alarm(0);
